@@ -2027,6 +2027,9 @@ class FnTranslator:
             term, t = self.expr(fe, env, pre, ft)
             self.check_ty(t, ft, "field %s" % f)
             parts.append("%s := %s" % (lid(f), term))
+        if str(self.u.struct_src.get(name, "")).startswith("trusted view") and not self.u.opaques_of(("struct", name), []):
+            # (b1617, round 9) a literal of a declared view may initialise a `let` (no expected type in Lean): ascribe it
+            return "({ " + ", ".join(parts) + " } : " + name + ")", ("struct", name)
         return "{ " + ", ".join(parts) + " }", ("struct", name)
 
     def format_(self, e, env, pre):
